@@ -173,7 +173,16 @@ def table() -> dict[str, Prop]:
              [TY.rule_typo, TY.rule_order, PL.rule_tables],
              not_decided="index bookkeeping of replaceAt for multi-character quotes (pos arithmetic), and that smartquotes leaves "
                          "autolink text alone (it does not on the pinned tree; the property's statement does not require it)"))
+    from .rules import guard_rules as GD
+    reg(Prop("C20", "the complexity guards whose removal changes no output are present and consulted on every path: skipToken's memo "
+             "(lookup dominates dispatch, stored on every exit past a miss), the backtick closer cache, the delimiter lower bounds "
+             "(read key == written key, jump table used on every step), the paren-depth cap inside the destination scan, cursor-to-"
+             "end when the nesting cap is hit (GUARD); every recursive dispatch is capped by maxNesting (NEST); a block rule "
+             "consumes what it scans (SCAN)",
+             [GD.rule_guard, TT.rule_nest, GD.rule_scan],
+             not_decided="the growth law itself (work per character as the input doubles) and regex backtracking inside `re`"))
     # rules shared across properties (appended here because their modules are imported above)
+    props["C01"].rules.append(GD.rule_guard)           # cap branch must consume its range (else: non-termination)
     props["C11"].rules.append(SW.rule_fanout)          # the same coherence through the facade
     props["C14"].rules.append(SW.rule_fanout)          # reset_rules restores all four rulers with enableOnly
     props["C13"].rules.append(EF.rule_alias)           # class-level mutables are shared between concurrent parses too
@@ -188,6 +197,9 @@ NOT_APPLICABLE["C06"] = ("a metamorphic relation between the parses of two diffe
                          "frames) are claimed under C07 and C17 instead")
 
 TECHNIQUE = {
+    "C20": "dominance and must-pass-through checks of the memo / cache / bound guards on per-function CFGs; structural equality "
+           "of the lower-bound table's read and write keys; copy-origin (reaching definitions) analysis of the line cursor "
+           "against the lookahead cursor",
     "C18": "enumeration of every option read into a key -> reader table checked against the documented readers over the call "
            "graph; type-based closure check of the inline phase; write-effect classification",
     "C19": "who-may-write analysis of the typographic rule modules with predicate dominance (type == 'text', autolink counter) "
